@@ -232,6 +232,8 @@ def generate(run_seed: int, cfg: Dict[str, Any]) -> Dict[str, Any]:
     pool_idx = sorted(rk.sample(range(len(POOL_JSON)), psize))
     w_mut, w_make, w_obs = rk.choice([(6, 3, 1), (3, 6, 1), (4, 4, 2), (8, 1, 1)])
     fault_rate = rk.choice([0.05, 0.1, 0.2]) if faulty else 0.0
+    rs = stream(run_seed, "schedule")
+    check_rate = rk.choice([1.0, 0.5, 0.2])
     ops: List[Dict[str, Any]] = []
     for _ in range(n_ops):
         cls = r.choices(["mut", "make", "obs"], weights=[w_mut, w_make, w_obs])[0]
@@ -271,7 +273,13 @@ def generate(run_seed: int, cfg: Dict[str, Any]) -> Dict[str, Any]:
                 op["dst"] = r.randrange(NSLOTS)
         if want_fault and not use_iter_fault and name in EVIL_ARM_OK:
             op["arm"] = [0, 1] if rf.random() < 0.3 else [rf.randrange(2)]
+        # observation is itself an operation on the container (iteration): do not iterate after every step, or state
+        # that only goes stale between two iterations can never be seen. In-place xor needs its observation because
+        # the order of the elements it adds is adopted from what is observed.
+        op["check"] = bool(rs.random() < check_rate or name in ("ixor", "symmetric_difference_update"))
         ops.append(op)
+    if ops:
+        ops[-1]["check"] = True
     return {"prop": PROP, "seed": run_seed, "faulty": faulty, "ops": ops}
 
 
@@ -551,7 +559,12 @@ def _run(scn, log: EventLog, stats: Stats):
                     new_dst = got  # order unspecified by the property for mixin operators: adopt
                 slots[di] = res
                 model[di] = list(new_dst)
-        # ---- invariants over every slot after every operation
+        # ---- invariants over every slot (at the observation points the scenario names)
+        if not op.get("check", True):
+            if any(not same_seq(model[i], pre[i]) for i in range(NSLOTS)):
+                stats.nontrivial = True
+            stats.probe("unobserved-step")
+            continue
         for i in range(NSLOTS):
             # for in-place xor the order of the newly added elements is only defined for ordered arguments
             strict = True
@@ -673,6 +686,7 @@ def truncate(scn, step):
 # ---------------------------------------------------------------- check metadata ----------------------
 LEVEL = "exploration"
 LOG_HASHSEED_INDEPENDENT = True
+RUN_CPU_LIMIT_S = 20.0  # a history takes about a millisecond
 TIERS = {
     "quick": {"runs": 48000, "gen": {"min_ops": 5, "max_ops": 40}, "soft_deadline_s": 120, "hard_timeout_s": 400,
               "n_echo": 16},
